@@ -215,3 +215,27 @@ plan("C20", "exploration",
      "goroutine kills it; the driver then replays the seed written ahead of the run in a fresh process), and the canary is served.",
      q, t, real_vs_stub=REAL_W2 + " W6: no bubble, no scheduler; real goroutines.", crash_is_violation=True,
      assumptions=["an input-space property: the technique contributes process isolation, the liveness canary and write-ahead replay, not schedules", "resource exhaustion is only reported if the process actually dies in this sandbox"])
+
+# Worlds with the DKG services contain one source of nondeterminism the simulator cannot own (OnExecute iterates
+# a Go map when it sends its contributions): a replay may need several attempts to take the same branch again.
+for _p in ("C12", "C13", "C14", "C16", "C17"):
+    PLANS[_p]["replay_attempts"] = 12
+
+PERM_RULE = ("a seeded run draws a permission table (1-4 clients x 1-4 ordered entries; wallet patterns: literal, .*, prefix.*, class, alternation in both orders, own anchors, other case, group, optional "
+             "char; account patterns likewise or empty; 1-3 operation items from All/None/op/~op in drawn order and case) over a population with near-miss names (Wallet1, Wallet10, Wallet2, xWallet2, "
+             "wallet3; acc1, acc10, Acc2, xacc1, val-1) on a real single-instance stack incl. process, account and wallet managers; ")
+q, t = tiers(120, 60, 6000, 900)
+plan("C07", "exploration",
+     PERM_RULE + "then 10-39 operations {generic sign, multisign, attest, attest batch, propose, list, lock/unlock account, create, wallet lock/unlock} by name or public key from known, unknown, "
+     "upper-cased and empty client names. distinct = distinct (operation, wallet, account, reference verdict, anonymous?) tuple; non-trivial = all. Oracle: an operation that was carried out "
+     "must be allowed by a reference evaluator written from the property text (first bearing item, whole-name case-insensitive match, default deny) on the resolved wallet/account name; "
+     "after every refusal the slashing-protection export is unchanged.",
+     q, t, real_vs_stub=REAL_W2)
+q, t = tiers(120, 60, 6000, 900)
+q["require_probes"] = t["require_probes"] = ["accounts_created_through_dirk", "nonempty_listings", "completeness_obligations"]
+plan("C18", "exploration",
+     PERM_RULE + "then 3-10 listing rounds with 1-3 requested paths each (wallet only, wallet/regex, alternation, unknown wallet, empty, malformed regex, other case, distributed wallet), by known, unknown "
+     "and empty clients, interleaved with account creation through Dirk. distinct = distinct (paths, result size, anonymous?); non-trivial = all. Oracle (sets): every returned account exists, "
+     "lies in a requested wallet, is accessible per the reference evaluator and carries its own name and key; every accessible account whose name whole-matches a requested path is returned, "
+     "including accounts created after start-up.",
+     q, t, real_vs_stub=REAL_W2)
